@@ -170,6 +170,9 @@ def proper_repr(value: Any) -> str:
         return Printer().doprint(value)
 
     if isinstance(value, np.ndarray):
+        if value.size == 0:
+            # tolist() of an empty array loses all but the leading dimensions of its shape.
+            return f'np.zeros({value.shape!r}, dtype=np.{value.dtype!r})'
         return f'np.array({value.tolist()!r}, dtype=np.{value.dtype!r})'
 
     if isinstance(value, pd.MultiIndex):
